@@ -308,8 +308,9 @@ def obligations(tier):
                                cost=20 * nf,
                                desc="feature collection: span, feature types = union, primary = flagged else longest then earliest, merged feature = union of blocks",
                                bounds="%d features, unbounded symbolic coordinates" % nf, examples=[ex, dict(ex, l1=9)]))
-    for kinds in ((("gene", "fc"), ("gene", "gene", "fc"), ("fc", "variant", "gene")) if quick else
-                  (("gene", "fc"), ("gene", "gene", "fc"), ("fc", "variant", "gene"), ("gene", "gene", "gene"), ("variant", "fc", "fc"))):
+    for kinds in ((("gene", "fc"), ("gene", "gene", "fc"), ("fc", "variant", "gene"), ("variant", "variant", "gene")) if quick else
+                  (("gene", "fc"), ("gene", "gene", "fc"), ("fc", "variant", "gene"), ("variant", "variant", "gene"), ("gene", "gene", "gene"),
+                   ("variant", "fc", "fc"), ("variant", "variant", "variant"))):
         p = {}
         for i in range(len(kinds)):
             p.update({"s%d" % i: int, "l%d" % i: int})
